@@ -551,6 +551,11 @@ func (c Cell) vertexChordDist2(p Point, xHi, yHi bool) s1.ChordAngle {
 	return ChordAngleBetweenPoints(p, PointFromCoords(x, y, 1))
 }
 
+// edgeIsClosestMargin is the margin of the tangential tests of uEdgeIsClosest
+// and vEdgeIsClosest: 32 * dblError (just below 2^-48), above the rounding error
+// of the dot products (at most 17 * 2^-53 for unit-length targets).
+const edgeIsClosestMargin = 32 * dblError
+
 // uEdgeIsClosest reports whether a point P is closer to the interior of the specified
 // Cell edge (either the lower or upper edge of the Cell) or to the endpoints.
 func (c Cell) uEdgeIsClosest(p Point, vHi bool) bool {
@@ -564,7 +569,13 @@ func (c Cell) uEdgeIsClosest(p Point, vHi bool) bool {
 	// and pass through one of its two endpoints.
 	dir0 := r3.Vector{X: v*v + 1, Y: -u0 * v, Z: -u0}
 	dir1 := r3.Vector{X: v*v + 1, Y: -u1 * v, Z: -u1}
-	return p.Dot(dir0) > 0 && p.Dot(dir1) < 0
+	// The dot products are computed with an absolute error of up to 17 *
+	// dblError.  Without a margin, a target at (nearly) 90 degrees from the
+	// whole edge makes both tests decide on rounding noise, and the edge branch
+	// is taken although the projection of P onto the edge plane points away
+	// from the edge.  With the margin the vertex branch is used instead, which
+	// is accurate there.
+	return p.Dot(dir0) > edgeIsClosestMargin && p.Dot(dir1) < -edgeIsClosestMargin
 }
 
 // vEdgeIsClosest reports whether a point P is closer to the interior of the specified
@@ -578,7 +589,7 @@ func (c Cell) vEdgeIsClosest(p Point, uHi bool) bool {
 	}
 	dir0 := r3.Vector{X: -u * v0, Y: u*u + 1, Z: -v0}
 	dir1 := r3.Vector{X: -u * v1, Y: u*u + 1, Z: -v1}
-	return p.Dot(dir0) > 0 && p.Dot(dir1) < 0
+	return p.Dot(dir0) > edgeIsClosestMargin && p.Dot(dir1) < -edgeIsClosestMargin
 }
 
 // edgeDistance reports the distance from a Point P to a given Cell edge. The point
